@@ -307,6 +307,28 @@ func TestC05(t *testing.T) {
 		pck.revokedAt = datesFor(len(pck.revoked))
 		root := crlPlan{signer: rapid.SampledFrom(signers).Draw(t, "rootSigner")}
 		root.revoked, root.contains = drawRevoked(t, "root", targets, s)
+		// a third of the cases vary ONE list only: everything about the other one is as it should be (correct signer, every
+		// distribution point answering, nothing of the chain listed), so that each single deviation decides a verdict on
+		// its own and is met many times in every run
+		focus := rapid.SampledFrom([]string{"both", "both", "both", "pck-list-only", "pck-list-only", "root-list-only"}).Draw(t, "deviationsIn")
+		switch focus {
+		case "pck-list-only":
+			root.signer, root.revoked, root.contains = "correct", nil, map[string]bool{}
+			// ... and the PCK list's signer and issuer-chain header are drawn evenly from the kinds there are (the general
+			// draw favours the correct ones), mostly with the endpoint answering
+			pck.signer = rapid.SampledFrom([]string{"correct", "other-ca", "foreign-key", "wrong-name", "tampered"}).Draw(t, "pckSignerEvenly")
+			pck.header = rapid.SampledFrom([]string{"ok", "missing", "empty", "one-cert", "pki-b", "forged-matching-foreign-key", "other-edition-of-the-issuing-ca"}).Draw(t, "pckHeaderEvenly")
+			if rapid.IntRange(0, 3).Draw(t, "pckEndpointAnswers") > 0 {
+				pck.outcome = "ok"
+			}
+			if rapid.Bool().Draw(t, "nothingOfTheChainOnThePckList") {
+				pck.revoked, pck.contains, pck.revokedAt = nil, map[string]bool{}, nil
+			}
+		case "root-list-only":
+			pck.signer, pck.outcome, pck.header, pck.revoked, pck.contains = "correct", "ok", "ok", nil, map[string]bool{}
+			pck.revokedAt = nil
+		}
+		gen.Class("deviations-in:" + focus)
 		root.revokedAt = datesFor(len(root.revoked))
 		// reason codes are informational too: unspecified .. aACompromise incl. removeFromCRL(8) and certificateHold(6)
 		reasonsFor := func(n int) []int {
@@ -460,6 +482,9 @@ func TestC05(t *testing.T) {
 		for i, u := range dps {
 			dpOutcome[i] = rapid.SampledFrom(append(append([]string{}, outcomes...), "changing", "changing")).Draw(t, fmt.Sprintf("dp%d", i))
 			dpAlt[i] = root.signer == "correct" && rapid.IntRange(0, 2).Draw(t, fmt.Sprintf("dpAlt%d", i)) == 0
+			if focus == "pck-list-only" {
+				dpOutcome[i], dpAlt[i] = "ok", false
+			}
 			own := rootDER
 			if dpAlt[i] {
 				own = altDER
